@@ -122,6 +122,11 @@ func (k Key) MatchString(tgt string) bool {
 	vals := strings.Split(tgt, "+")
 	mods := vals[0 : len(vals)-1]
 	key := vals[len(vals)-1]
+	if key == "" && len(vals) > 2 && vals[len(vals)-2] == "" {
+		// the key is '+' itself ("Ctrl++")
+		key = "+"
+		mods = vals[0 : len(vals)-2]
+	}
 
 	var mask ModifierMask
 	for _, m := range mods {
